@@ -32,6 +32,7 @@ struct SplitMix {
 // ---------------------------------------------------------------- served coins
 // Every random byte libTMCG asks libgcrypt for is served from here (interpose.cc).
 struct CoinLogEntry { int level; std::vector<unsigned char> bytes; };
+struct CoinBudgetExceeded {};
 struct CoinSource {
 	bool serve = true;          // false: pass through to the real libgcrypt
 	SplitMix prng{1};           // default source
@@ -39,6 +40,9 @@ struct CoinSource {
 	bool log = false;
 	std::vector<CoinLogEntry> entries;
 	uint64_t bytes_served = 0;
+	// draw budget (0 = none): a rejection loop of the library that never ends (tmcg_mpz_lprime for tiny cofactor sizes: q is
+	// drawn once, then only k) must not hang a driver - when the budget is used up, fill() throws CoinBudgetExceeded
+	uint64_t budget = 0, draws = 0;
 	void reseed(uint64_t s) { prng = SplitMix(s); script.clear(); script_pos = 0; }
 	void set_script_words(const std::vector<uint64_t>& w) {
 		script.clear(); script_pos = 0;
